@@ -290,7 +290,7 @@ PROPS["C12"] = {
 
 PROPS["C20"] = {
     "level": "proof",
-    "verus": [{"unit": "errors", "rlimit": 200}, {"unit": "iterators", "rlimit": 200}],
+    "verus": [{"unit": "errors", "rlimit": 200}, {"unit": "iterators", "rlimit": 200}, {"unit": "typed_de", "rlimit": 300}],
     "kani": K_POSITION + K_DOMENTRY,
     "syntactic": [{"name": "not-found codes are constructed only in get* functions", "fn": synt.notfound_only_in_get}],
     "trusted_base": [T1, T4, T6, VSTD,
@@ -299,7 +299,7 @@ PROPS["C20"] = {
                      "errors made by serde visitors (make_error / parse_line_col) are not covered",
                      "dom_entry_error_position*: Parser::parse_dom (in-place parser) and Error::syntax enter through hand-written models of their contracts (kani::stub); TlsBuf::with_capacity is replaced by its own heap branch (Kani cannot compile the const thread_local)",
                      "StreamDeserializer::next body is verified inside an inherent impl (Verus takes no contracts on foreign-trait impls)"],
-    "level_text": "Verus proof that every error built by the parser (Parser::error -> Error::syntax) carries an offset <= input length and exactly the line/column of that offset (Position::from_index against line_of/col_of), that the snippet window arithmetic and slicing cannot go out of bounds, that classify() yields NotFound only for the four lookup codes, and that the stream deserializer and both lazy iterators latch after an error or the end; bounded Kani proof that the whole-document DOM entry (parse_with_padding) re-locates in-place parser errors in the original text",
+    "level_text": "Verus proof that no error leaves the typed entry points from_trait (from_str / from_slice / from_reader) and Deserializer::deserialize (also the stream deserializer) without a position, whoever made it (parser, visitor, derived code: F23); Verus proof that every error built by the parser (Parser::error -> Error::syntax) carries an offset <= input length and exactly the line/column of that offset (Position::from_index against line_of/col_of), that the snippet window arithmetic and slicing cannot go out of bounds, that classify() yields NotFound only for the four lookup codes, and that the stream deserializer and both lazy iterators latch after an error or the end; bounded Kani proof that the whole-document DOM entry (parse_with_padding) re-locates in-place parser errors in the original text",
     "level_note": "offsets of UTF-8 errors rest on simdutf8 (T4); message text/Display not covered",
     "technique": TECH_V,
     "explanation": "err_ok(e, data) := index <= len && line == line_of(index) && column == col_of(index)",
